@@ -1,6 +1,6 @@
 (* C16 - Line markers are transparent and name the right source line. *)
 From Coq Require Import List ZArith NArith.
-From Pory Require Import Lexer Ast Parser Emitter Props16.
+From Pory Require Import Lexer Ast Parser Emitter Props16 ProgProps16.
 Import ListNotations.
 
 (* removing the marker instructions from the -lm output of a script gives exactly its -lm=false output
@@ -14,3 +14,14 @@ Theorem emit_script_transparent : forall (p : text) (tl : list text) name glob o
   end.
 Proof. exact Props16.emit_script_transparent. Qed.
 Print Assumptions emit_script_transparent.
+
+(* the same for whole programs: scripts, raw blocks, movements, marts, mapscripts with inline scripts and tables, texts *)
+Theorem emit_program_transparent : forall opt p prog,
+  rel_res (fun a b => strip a = b) (emit_program_instrs opt (Some p) prog) (emit_program_instrs opt None prog).
+Proof. exact ProgProps16.emit_program_transparent. Qed.
+Print Assumptions emit_program_transparent.
+
+(* without an input path no marker is emitted *)
+Theorem no_markers_without_path : forall opt prog is, emit_program_instrs opt None prog = Ok is -> strip is = is.
+Proof. exact ProgProps16.no_markers_without_path. Qed.
+Print Assumptions no_markers_without_path.
